@@ -97,6 +97,10 @@ func (a *Array) MarshalJSONBuffer(dst []byte) ([]byte, error) {
 	i := a.Iter()
 	var elem Iter
 	for {
+		if i.PeekNextTag() == TagArrayEnd {
+			// Empty array, or only deleted elements left.
+			break
+		}
 		t, err := i.AdvanceIter(&elem)
 		if err != nil {
 			return nil, err
